@@ -230,7 +230,8 @@ def r15c(model: Model, rr: RuleResult):
     key = fi.module.functions.get("uniq_sort_cpal_colors._color_sort_key")
     if key is not None:
         t = " ".join(norm(s) for s in key.body)
-        if "return (c.palette_index,)" in t and "return (cpal_slots,) + tuple((-v for v in c[:4]))" in t:
+        if "return (c.palette_index,)" in t and any(x in t for x in ("return (cpal_slots,) + tuple((-v for v in c[:4]))", "return (cpal_slots, *(-v for v in c[:4]))",
+                                                                     "return (cpal_slots, *[-v for v in c[:4]])", "return (cpal_slots, -c[0], -c[1], -c[2], -c[3])")):
             rr.ok("sort key: indexed colours by index (left), unindexed after them by descending RGBA (popped from the right in ascending order)")
         else:
             rr.bad_shape(key, key.node, "the colour sort key changed: indexed colours must sort by index before all unindexed ones", construct="_color_sort_key")
